@@ -114,11 +114,11 @@ pub fn c17(ctx: &mut Ctx, tier: &str, r: &mut Rng, js: &[Value], _reqs: &[String
     }
     // the same dates in other orders (the result is a function of the date, not of what was converted
     // before it on this thread): descending runs around year ends, and random jumps
-    let n_jump = if tier == "thorough" { 2_000_000 } else { 200_000 };
+    let n_jump = sz!(tier, 200_000, 2_000_000);
     for _ in 0..n_jump {
         one(ctx, r.int(1, RD_MAX));
     }
-    for k in 0..(if tier == "thorough" { 20000 } else { 2000 }) {
+    for k in 0..(sz!(tier, 2000, 20000)) {
         // 1 Muharram of a random year, then the days before it, descending; then forwards across it again
         let y = r.int(-640, 9666);
         let start = ((y - 1) * 354 + (3 + 11 * y).div_euclid(30) + 227015).clamp(40, RD_MAX - 40);
